@@ -11,12 +11,12 @@ Definition q (n : Z) (d : positive) : Qc := Q2Qc (n # d).
 Inductive obs :=
 | ORejected                                               (* ValueError / ParameterNotIntegerException ... *)
 | ONone                                                   (* create_program returned None *)
-| OProg (dur : Qc) (ws : list window) (wsc : list window). (* duration, windows, windows after cleanup() *)
+| OProg (dur : Qc) (ws : list window) (durc : Qc) (wsc : list window). (* duration, windows; both after cleanup() *)
 
 Inductive case :=
 | CProg (p : pt) (en : list (N * Qc)) (mm : list (N * option N)) (o : obs)
   (* a hand-built Loop: duration, windows, windows after reverse_inplace(), windows after cleanup() *)
-| CLoop (l : loop) (dur : Qc) (ws : list window) (wrev wclean : option (list window))
+| CLoop (l : loop) (dur : Qc) (ws : list window) (wrev wclean : option (list window)) (durclean : Qc)
 | CCrash.
 
 Definition env_of (l : list (N * Qc)) : env := fun x => match lookup l x with Some v => v | None => 0 end.
@@ -56,12 +56,13 @@ Definition check_corr (c : case) : bool :=
       match create_program p (env_of en) (mm_of mm), o with
       | Rejected, ORejected => true
       | NoProgram, ONone => true
-      | Program l, OProg d ws wsc =>
-          Qceqb (ldur l) d && ms_eqb (loop_windows l) ws && ms_eqb (loop_windows (cleanup l)) wsc
+      | Program l, OProg d ws dc wsc =>
+          Qceqb (ldur l) d && ms_eqb (loop_windows l) ws
+          && Qceqb (ldur (cleanup l)) dc && ms_eqb (loop_windows (cleanup l)) wsc
       | _, _ => false
       end
-  | CLoop l d ws wrev wclean =>
-      Qceqb (ldur l) d && ms_eqb (loop_windows l) ws
+  | CLoop l d ws wrev wclean dc =>
+      Qceqb (ldur l) d && ms_eqb (loop_windows l) ws && Qceqb (ldur (cleanup l)) dc
       && match wrev with Some w => ms_eqb (loop_windows (reverse_loop l)) w | None => true end
       && match wclean with Some w => ms_eqb (loop_windows (cleanup l)) w | None => true end
   | CCrash => false
@@ -74,11 +75,12 @@ Definition check_spec (c : case) : bool :=
       match o with
       | ORejected => negb (must_accept p e)          (* an assignment with nothing to object to must be accepted *)
       | ONone => negb (plays p e)
-      | OProg d ws wsc =>
-          plays p e && Qceqb (tdur p e) d && ms_eqb (denote p e (mm_of mm)) ws && ms_eqb (denote p e (mm_of mm)) wsc
+      | OProg d ws dc wsc =>
+          plays p e && Qceqb (tdur p e) d && ms_eqb (denote p e (mm_of mm)) ws
+          && Qceqb (tdur p e) dc && ms_eqb (denote p e (mm_of mm)) wsc
       end
-  | CLoop l d ws wrev wclean =>
-      ms_eqb (exec_windows l) ws
+  | CLoop l d ws wrev wclean dc =>
+      ms_eqb (exec_windows l) ws && (if no_empty l then Qceqb d dc else true)
       && match wrev with Some w => ms_eqb (mirror d ws) w | None => true end       (* reversal mirrors about the duration *)
       && match wclean with Some w => if no_empty l then ms_eqb ws w else true | None => true end
   | CCrash => false
